@@ -1922,6 +1922,10 @@ func (mgr *Manager) addConverter(path string) error {
 	}
 	mgr.converters[name] = converter
 	mgr.streamsToConvert[name] = &bitmask.LongBitmask{}
+	// tags that read the output of a converter of this name were evaluated
+	// without it (at start-up no tag is loaded yet)
+	mgr.invalidateDataTags(mgr.allStreams)
+	mgr.startTaggingJobIfNeeded()
 	return nil
 }
 
